@@ -85,6 +85,25 @@ var fingerprints = []item{
 	{"roaring64", "Bitmap.WriteTo", ""}, {"roaring64", "Bitmap.ReadFrom", ""}, {"roaring64", "Bitmap.FromUnsafeBytes", ""},
 }
 
+// comparison skeletons: for every function declared in the listed source files, every comparison (< <= > >= == !=) one side of
+// which is a compile-time integer constant with absolute value >= 2 (thresholds, sizes, cookies, widths; the 0 / 1 / -1 idioms of
+// loops and emptiness tests are left out), normalised to "<function>: <non-constant side> <op> <value>" with the constant on the right.
+type cmpGroup struct {
+	lean  string
+	pkg   string
+	files []string
+}
+
+var cmpGroups = []cmpGroup{
+	{"cmpSkeletonSerial", "", []string{"roaringarray.go", "serialization.go", "serialization_generic.go", "serialization_littleendian.go"}},
+	{"cmpSkeletonKernels", "", []string{"arraycontainer.go", "bitmapcontainer.go", "runcontainer.go", "setutil.go", "util.go"}},
+	{"cmpSkeletonBitmap", "", []string{"roaring.go"}},
+	{"cmpSkeletonAgg", "", []string{"fastaggregation.go", "parallel.go", "priorityqueue.go"}},
+	{"cmpSkeletonR64", "roaring64", []string{"roaring64.go", "roaringarray64.go", "fastaggregation64.go", "parallel64.go", "iterables64.go"}},
+	{"cmpSkeletonBSI64", "roaring64", []string{"bsi64.go"}},
+	{"cmpSkeletonBSI32", "BitSliceIndexing", []string{"bsi.go"}},
+}
+
 var skeletons = []item{
 	{"", "ParHeapOr", "skeletonParHeapOr"},
 	{"", "ParAnd", "skeletonParAnd"},
@@ -206,6 +225,20 @@ func main() {
 		}
 		ev := skeleton(pi, fd)
 		fmt.Fprintf(&out, "def %s : List String := [\n", f.lean)
+		for i, e := range ev {
+			sep := ","
+			if i == len(ev)-1 {
+				sep = ""
+			}
+			fmt.Fprintf(&out, "  %q%s\n", e, sep)
+		}
+		fmt.Fprintln(&out, "]")
+	}
+	fmt.Fprintln(&out, "")
+	fmt.Fprintln(&out, "/-! ### comparison skeletons: every comparison against an integer constant of absolute value >= 2, per group of source files -/")
+	for _, g := range cmpGroups {
+		ev := cmpSkeleton(infos[g.pkg], g.files)
+		fmt.Fprintf(&out, "def %s : List String := [\n", g.lean)
 		for i, e := range ev {
 			sep := ","
 			if i == len(ev)-1 {
@@ -780,6 +813,86 @@ func skeleton(pi *pkgInfo, fd *ast.FuncDecl) []string {
 				changed = true
 				break
 			}
+		}
+	}
+	return ev
+}
+
+// ---------------------------------------------------------------------------------------------------------
+// comparison skeleton of the functions declared in the given files (file order, then source order)
+func cmpSkeleton(pi *pkgInfo, files []string) []string {
+	var ev []string
+	want := map[string]bool{}
+	for _, f := range files {
+		want[f] = true
+	}
+	type fileDecls struct {
+		name string
+		f    *ast.File
+	}
+	var fs []fileDecls
+	for _, f := range pi.p.Syntax {
+		fn := pi.p.Fset.Position(f.Pos()).Filename
+		base := fn[strings.LastIndex(fn, "/")+1:]
+		if want[base] {
+			fs = append(fs, fileDecls{base, f})
+		}
+	}
+	sort.Slice(fs, func(i, j int) bool { return fs[i].name < fs[j].name })
+	flip := map[token.Token]token.Token{token.LSS: token.GTR, token.LEQ: token.GEQ, token.GTR: token.LSS, token.GEQ: token.LEQ, token.EQL: token.EQL, token.NEQ: token.NEQ}
+	constOf := func(e ast.Expr) (string, bool) {
+		tv, ok := pi.p.TypesInfo.Types[e]
+		if !ok || tv.Value == nil {
+			return "", false
+		}
+		v := constant.ToInt(tv.Value)
+		if v.Kind() != constant.Int {
+			return "", false
+		}
+		if constant.Compare(v, token.GTR, constant.MakeInt64(-2)) && constant.Compare(v, token.LSS, constant.MakeInt64(2)) {
+			return "", false
+		}
+		return v.ExactString(), true
+	}
+	show := func(e ast.Expr) string {
+		var b bytes.Buffer
+		printer.Fprint(&b, pi.p.Fset, e)
+		return strings.Join(strings.Fields(b.String()), " ")
+	}
+	for _, fd := range fs {
+		for _, d := range fd.f.Decls {
+			fn, ok := d.(*ast.FuncDecl)
+			if !ok || fn.Body == nil {
+				continue
+			}
+			name := fn.Name.Name
+			if fn.Recv != nil && len(fn.Recv.List) == 1 {
+				t := fn.Recv.List[0].Type
+				if st, ok := t.(*ast.StarExpr); ok {
+					t = st.X
+				}
+				if id, ok := t.(*ast.Ident); ok {
+					name = id.Name + "." + name
+				}
+			}
+			ast.Inspect(fn.Body, func(n ast.Node) bool {
+				be, ok := n.(*ast.BinaryExpr)
+				if !ok {
+					return true
+				}
+				if _, isCmp := flip[be.Op]; !isCmp {
+					return true
+				}
+				lv, lc := constOf(be.X)
+				rv, rc := constOf(be.Y)
+				switch {
+				case rc && !lc:
+					ev = append(ev, fmt.Sprintf("%s: %s %s %s", name, show(be.X), be.Op, rv))
+				case lc && !rc:
+					ev = append(ev, fmt.Sprintf("%s: %s %s %s", name, show(be.Y), flip[be.Op], lv))
+				}
+				return true
+			})
 		}
 	}
 	return ev
